@@ -62,10 +62,18 @@ package vm
 // ---------------------------------------------------------------------------
 // vm/tracer.go
 
-//@ func (*vm.StorageChanges).append
+// C10: per (variable, call) the recorded list is the chronological sequence of journaled values with
+// immediate repeats collapsed; other calls' lists are untouched.
+//@ func (*vm.StorageChanges).append(c, callIdx, newVal)
 //@   verify
 //@   safety [C03]
 //@   requires recv: c != nil
+//@   let before = old(c.changes[callIdx])
+//@   let repeat = len(before) > 0 && bytes_eq(before[len(before) - 1], newVal)
+//@   ensures repeat-collapsed [C10 C13]: repeat ==> sameslice(c.changes[callIdx], before)
+//@   ensures appended [C10 C13]: !repeat ==> len(c.changes[callIdx]) == len(before) + 1 && sameslice(c.changes[callIdx][len(before)], newVal)
+//@   ensures prefix-kept [C10 C13]: forall i uint64 :: i < uint64(len(before)) ==> sameslice(c.changes[callIdx][i], before[i])
+//@   ensures other-calls-untouched [C10 C13]: forall k uint64 :: k != callIdx ==> has(c.changes, k) == old(has(c.changes, k)) && sameslice(c.changes[k], old(c.changes[k]))
 //@   modifies cell:[]byte, map:map[uint64][][]byte
 //@ end
 
@@ -96,10 +104,14 @@ package vm
 //@   requires recv: k != nil
 //@ end
 
-//@ func (*vm.StateChanges).saveBalance
+//@ func (*vm.StateChanges).saveBalance(s, account, newBalance, callIdx)
 //@   verify
 //@   safety [C03]
 //@   requires recv: s != nil && newBalance != nil
+//@   ghost j u64 = 0
+//@   oncall (*vm.StorageKey).JournalChanges : j = j + 1
+//@   assertcall (*vm.StorageKey).JournalChanges under-the-account-root [C13]: j == 0 && $0 != nil && $0 == s.roots[account] && $1 == callIdx
+//@   ensures journaled-once [C13]: j == 1
 //@   modifies cell:[]byte, map:map[uint64][][]byte, vm.StorageKey.changes, vm.StorageKey.nodeType, map:map[common.Address]*vm.StorageKey
 //@ end
 
@@ -246,10 +258,51 @@ package vm
 //@   requires recv: c != nil
 //@ end
 
-//@ func (*vm.Tracer).CurrentCallIndex
+//@ func (*vm.Tracer).CurrentCallIndex(t) (idx)
 //@   verify
 //@   safety [C03]
 //@   requires recv: t != nil
+//@   ensures innermost-open-call [C10 C13]: (t.callTree.current != nil ==> idx == t.callTree.current.Index) && (t.callTree.current == nil ==> idx == 0)
+//@ end
+
+// C13: the balance journal brackets the transfer: read(from), read(to), transfer exactly once with the same
+// arguments, read(from), read(to); each value read is journaled under the account it was read for and under
+// the call index that was current on entry.
+//@ func (*vm.Tracer).TransferWithRecord(t, db, from, to, amount, transfer)
+//@   verify
+//@   safety [C03]
+//@   requires recv: t != nil && t.states != nil && t.callTree != nil && db != nil
+//@   ghost idx0 u64 = ite(t.callTree.current != nil, t.callTree.current.Index, 0)
+//@   ghost reads u64 = 0
+//@   ghost xfer u64 = 0
+//@   ghost saves u64 = 0
+//@   ghost lastbal ptr = nil
+//@   ghost lastacct addr = 0
+//@   oncall StateDB.GetBalance : reads = reads + 1 ; lastbal = $r ; lastacct = $1
+//@   oncall vm.TransferFunc : xfer = xfer + 1
+//@   oncall (*vm.StateChanges).saveBalance : saves = saves + 1
+//@   assertcall StateDB.GetBalance read-order [C13]: $0 == db && saves == reads && reads < 4 && (reads == 0 ==> $1 == from && xfer == 0) && (reads == 1 ==> $1 == to && xfer == 0) && (reads == 2 ==> $1 == from && xfer == 1) && (reads == 3 ==> $1 == to && xfer == 1)
+//@   assertcall vm.TransferFunc transfer-once-between-the-reads [C13]: xfer == 0 && reads == 2 && saves == 2 && $1 == db && $2 == from && $3 == to && $4 == amount
+//@   assertcall (*vm.StateChanges).saveBalance journals-the-value-read [C13]: saves + 1 == reads && $1 == lastacct && $2 != nil && *$2 == bigabs(lastbal) && $3 == idx0
+//@   ensures four-observations [C13]: reads == 4 && saves == 4 && xfer == 1
+//@   kind mutating
+//@   modifies cell:[]byte, map:map[uint64][][]byte, vm.StorageKey.changes, vm.StorageKey.nodeType, map:map[common.Address]*vm.StorageKey
+//@ end
+
+// C10: the journal entry points stamp the index of the innermost open call.
+//@ func (*vm.Tracer).SaveStateChange
+//@   verify
+//@   safety [C03]
+//@   requires recv: t != nil && t.states != nil && t.callTree != nil && slot != nil
+//@   assertcall (*vm.StateChanges).saveChange stamps-current-call [C10]: $0 == t.states && $1 == account && $2 == slot && $3 == offset && $4 == typeId && sameslice($6, newVal) && (t.callTree.current != nil ==> $5 == t.callTree.current.Index) && (t.callTree.current == nil ==> $5 == 0)
+//@   modifies cell:[]byte, map:map[uint64][][]byte, vm.StorageKey.changes, vm.StorageKey.nodeType
+//@ end
+//@ func (*vm.Tracer).SaveRawStateChange
+//@   verify
+//@   safety [C03]
+//@   requires recv: t != nil && t.states != nil && t.callTree != nil
+//@   assertcall (*vm.StateChanges).saveRawStateChange stamps-current-call [C10]: $0 == t.states && $1 == account && $2 == slot && $4 == val && (t.callTree.current != nil ==> $3 == t.callTree.current.Index) && (t.callTree.current == nil ==> $3 == 0)
+//@   modifies map:map[common.Address]map[uint256.Int]map[uint64]common.Hash, map:map[uint256.Int]map[uint64]common.Hash, map:map[uint64]common.Hash
 //@ end
 
 //@ func vm.NewTracer
